@@ -43,9 +43,43 @@ var (
 	nextID  int
 	opts    vh.Opts
 	edgeLen = []int{0, 1, 15, 16, 17, 31, 32, 33, 64, 100, 1000, 4096}
+	// anon model cases, in this order (quick tier takes a prefix)
+	anonLens = []int{0, 192, 1, 65, 16, 320, 33, 64, 129, 17, 448, 136, 63, 256, 193, 100, 1088, 4032,
+		15, 31, 32, 127, 128, 191, 255, 257, 272, 576, 704, 1000, 2048, 4095, 4096}
 )
 
 func newID() int { nextID++; return nextID }
+
+var boundaryCache []int
+
+// boundaryLens: message lengths around every block size that occurs in the
+// schemes and their primitives (16 AES/GCM, 32/64 hash and BLAKE2 key, 128 BLAKE2b
+// block, 136 Keccak rate), the families 128k, 136k, 64+128k, and the ends of 0..4096.
+func boundaryLens() []int {
+	if boundaryCache != nil {
+		return boundaryCache
+	}
+	seen := map[int]bool{}
+	add := func(v int) {
+		if v >= 0 && v <= 4096 && !seen[v] {
+			seen[v] = true
+			boundaryCache = append(boundaryCache, v)
+		}
+	}
+	for _, b := range []int{0, 16, 32, 64, 128, 136, 192, 256, 272, 512, 1024, 2048, 4096} {
+		add(b - 1)
+		add(b)
+		add(b + 1)
+	}
+	for k := 1; 128*k <= 4096; k++ {
+		add(128 * k)
+		add(64 + 128*k)
+	}
+	for k := 1; 136*k <= 4096; k++ {
+		add(136 * k)
+	}
+	return boundaryCache
+}
 
 func cp(b []byte) []byte { return append([]byte{}, b...) }
 
@@ -87,7 +121,9 @@ func refGcm(kn []byte) cipher.AEAD {
 	return g
 }
 
-func refXof(seed []byte, n int) []byte {
+// refXof: n bytes of BLAKE2Xb keyed like kyber's blake2xb.New(seed) after absorbing abs.
+// For len(seed) >= 64 (or no absorbed data) this is the stream of XOF(seed || abs).
+func refXof(seed, abs []byte, n int) []byte {
 	k, rest := seed, []byte(nil)
 	if len(seed) > blake2b.Size {
 		k, rest = seed[:blake2b.Size], seed[blake2b.Size:]
@@ -97,6 +133,7 @@ func refXof(seed []byte, n int) []byte {
 		panic(err)
 	}
 	x.Write(rest)
+	x.Write(abs)
 	out := make([]byte, n)
 	io.ReadFull(x, out)
 	return out
@@ -375,12 +412,15 @@ func hashTbl(s *dpSuite) string {
 	return coqTbl(es)
 }
 
-func idTbl(s *dpSuite) string {
-	var it []string
-	for _, e := range s.ids {
-		it = append(it, fmt.Sprintf("(%s, %s, %s)", vh.CoqBool(e.g2), vh.CoqBytes(e.id), vh.CoqZ(e.log)))
+// idTbl: the hash-to-point oracle at the CURRENT identity bytes, computed by the
+// harness itself (not recorded from the implementation, which may legitimately
+// cache identity points - or wrongly reuse a stale one).
+func idTbl(s *dpSuite, g2 bool, id []byte) string {
+	tag := byte(2) // identities on G2 for the ...onG1 functions
+	if g2 {
+		tag = 1
 	}
-	return vh.CoqList(it)
+	return fmt.Sprintf("[(%s, %s, %s)]", vh.CoqBool(g2), vh.CoqBytes(id), vh.CoqZ(dpHashLog(s.q, tag, id)))
 }
 
 func xorBytes(a, b []byte) []byte {
@@ -440,7 +480,7 @@ func ibeCases(r *vh.Rng, n int) {
 			}
 		}
 		id := newID()
-		cf.Items = append(cf.Items, fmt.Sprintf("CIbeEnc %d %s %s %s %s %s %s %s %s %s %s %s", id, hashTbl(s), idTbl(s), vh.CoqBool(g2),
+		cf.Items = append(cf.Items, fmt.Sprintf("CIbeEnc %d %s %s %s %s %s %s %s %s %s %s %s", id, hashTbl(s), idTbl(s, g2, ID), vh.CoqBool(g2),
 			vh.CoqZ(sk), vh.CoqBytes(ID), vh.CoqBytes(msg), vh.CoqBytes(sigma), vh.CoqInt(cls), vh.CoqZ(U), vh.CoqBytes(V), vh.CoqBytes(W)))
 		d := map[string]interface{}{"type": "ibe-cca-encrypt", "onG2": g2, "msglen": mlen, "master": sk.String(), "id": vh.Hex(ID), "msg": vh.Hex(msg), "class": cls, "panic": pm}
 		rep.Index(id, d)
@@ -535,7 +575,7 @@ func ibeCases(r *vh.Rng, n int) {
 			rv.Mod(rv, s.q)
 		}
 		id := newID()
-		cf.Items = append(cf.Items, fmt.Sprintf("CCpaEnc %d %s %s %s %s %s %s %s %s %s %s", id, hashTbl(s), idTbl(s), vh.CoqZ(bv), vh.CoqZ(dlogOf(public)),
+		cf.Items = append(cf.Items, fmt.Sprintf("CCpaEnc %d %s %s %s %s %s %s %s %s %s %s", id, hashTbl(s), idTbl(s, false, ID), vh.CoqZ(bv), vh.CoqZ(dlogOf(public)),
 			vh.CoqBytes(ID), vh.CoqBytes(msg), vh.CoqZ(rv), vh.CoqInt(cls), vh.CoqZ(RP), vh.CoqBytes(C)))
 		d := map[string]interface{}{"type": "ibe-cpa-encrypt", "msglen": mlen, "base": bv.String(), "secret": sk.String(), "id": vh.Hex(ID), "msg": vh.Hex(msg), "class": cls, "panic": pm, "C": vh.Hex(C)}
 		rep.Index(id, d)
@@ -818,7 +858,13 @@ type recSuite struct {
 type recXof struct {
 	kyber.XOF
 	seed []byte
+	abs  []byte // data absorbed with Write after seeding
 	n    int
+}
+
+func (x *recXof) Write(b []byte) (int, error) {
+	x.abs = append(x.abs, b...)
+	return x.XOF.Write(b)
 }
 
 func (x *recXof) Read(b []byte) (int, error) { x.n += len(b); return x.XOF.Read(b) }
@@ -832,13 +878,17 @@ func (s *recSuite) XOF(key []byte) kyber.XOF {
 	return x
 }
 func (s *recSuite) table() string {
+	// an XOF is identified by everything it absorbed (seed || written data): a
+	// stream built by seeding with a prefix and writing the rest is the same oracle
 	need := map[string]int{}
+	src := map[string]*recXof{}
 	var order []string
 	for _, x := range s.log {
-		k := string(x.seed)
+		k := string(x.seed) + string(x.abs)
 		if _, ok := need[k]; !ok {
 			order = append(order, k)
 			need[k] = 0
+			src[k] = x
 		}
 		if x.n > need[k] {
 			need[k] = x.n
@@ -846,7 +896,7 @@ func (s *recSuite) table() string {
 	}
 	var es [][2][]byte
 	for _, k := range order {
-		es = append(es, [2][]byte{[]byte(k), refXof([]byte(k), need[k])})
+		es = append(es, [2][]byte{[]byte(k), refXof(src[k].seed, src[k].abs, need[k])})
 	}
 	return coqTbl(es)
 }
@@ -854,13 +904,16 @@ func (s *recSuite) table() string {
 func anonCases(r *vh.Rng, n int) {
 	for i := 0; i < n; i++ {
 		nk := 1 + i%6
-		mlen := edgeLen[(i/6)%len(edgeLen)]
-		if mlen > 1000 && i > 12 {
-			mlen = r.Intn(70)
+		var mlen int
+		switch {
+		case i < len(anonLens):
+			mlen = anonLens[i]
+		case i%3 == 0:
+			mlen = boundaryLens()[r.Intn(len(boundaryLens()))]
+		default:
+			mlen = r.Intn(300)
 		}
-		if i >= 6*len(edgeLen) {
-			mlen = r.Intn(70)
-		}
+		rep.Dist(fmt.Sprintf("len:anon-case:%d", mlen))
 		s := &recSuite{DlogGroup: vh.NewDlogGroup(vh.Q61, vh.NewSeqStream(r.Bytes(16)))}
 		var privs []*big.Int
 		var set anon.Set
@@ -898,6 +951,9 @@ func anonCases(r *vh.Rng, n int) {
 		}
 		var vs []variant
 		for k := 0; k < nk; k++ {
+			if mlen > 500 && k > 0 {
+				break
+			}
 			vs = append(vs, variant{fmt.Sprintf("honest-%d", k), ct, (k % 2) * 5, k, privs[k]})
 		}
 		mine := r.Intn(nk)
@@ -909,24 +965,44 @@ func anonCases(r *vh.Rng, n int) {
 			b := lo*8 + r.Intn((hi-lo)*8)
 			t[b/8] ^= 1 << (b % 8)
 			vs = append(vs, variant{fmt.Sprintf("%s-bit-%d", what, b), t, r.Intn(2) * 3, mine, privs[mine]})
+			rep.Dist("region:anon-case:" + what)
 		}
-		flip("X", 0, 9)
-		flip("own-slot", 9+8*mine, 9+8*mine+8)
+		big4k := mlen > 500 // long messages: fewer variants (Coq literal size)
+		if !big4k {
+			flip("X", 0, 9)
+			flip("own-slot", 9+8*mine, 9+8*mine+8)
+		}
 		if nk > 1 {
 			o := (mine + 1 + r.Intn(nk-1)) % nk
 			flip("other-slot", 9+8*o, 9+8*o+8)
 		}
-		flip("body", hdr, hdr+mlen)
+		// every region of the body: first byte, middle, last 128 bytes, last byte
+		flip("body-first", hdr, hdr+1)
+		if !big4k {
+			flip("body-middle", hdr+mlen/3, hdr+mlen/3+mlen/3)
+		}
+		lo128 := hdr + mlen - 128
+		if lo128 < hdr {
+			lo128 = hdr
+		}
+		flip("body-last128", lo128, hdr+mlen)
+		flip("body-last", hdr+mlen-1, hdr+mlen)
 		flip("tag", hdr+mlen, hdr+mlen+16)
-		for _, l := range []int{0, 8, 9, hdr - 1, hdr, hdr + 15, hdr + 16, len(ct) - 1, r.Intn(len(ct))} {
+		tr := []int{0, 8, 9, hdr - 1, hdr, hdr + 15, hdr + 16, len(ct) - 1, r.Intn(len(ct))}
+		if big4k {
+			tr = []int{hdr + 16, len(ct) - 1}
+		}
+		for _, l := range tr {
 			if l >= 0 && l < len(ct) {
 				vs = append(vs, variant{fmt.Sprintf("truncate-%d", l), ct[:l], 0, mine, privs[mine]})
 			}
 		}
-		vs = append(vs, variant{"extended", append(cp(ct), 1), 2, mine, privs[mine]})
-		vs = append(vs, variant{"outsider-key", ct, 0, mine, r.BigBelow(vh.Q61)})
-		if nk > 1 {
-			vs = append(vs, variant{"wrong-index", ct, 0, (mine + 1) % nk, privs[mine]})
+		if !big4k {
+			vs = append(vs, variant{"extended", append(cp(ct), 1), 2, mine, privs[mine]})
+			vs = append(vs, variant{"outsider-key", ct, 0, mine, r.BigBelow(vh.Q61)})
+			if nk > 1 {
+				vs = append(vs, variant{"wrong-index", ct, 0, (mine + 1) % nk, privs[mine]})
+			}
 		}
 		if i%5 == 0 {
 			vs = append(vs, variant{"index-out-of-range", ct, 0, nk, privs[mine]})
@@ -994,6 +1070,7 @@ func anonOracle(r *vh.Rng, st anonSetting, nk, mlen, nflips int, allTrunc bool) 
 	}
 	rep.Count(fmt.Sprintf("anon-oracle %s %d %x", st.name, nk, msg), true)
 	rep.Dist(fmt.Sprintf("oracle:anon:%s:set=%d", st.name, nk))
+	rep.Dist(fmt.Sprintf("len:anon-oracle:%d", mlen))
 	if err != nil {
 		desc["err"] = err.Error()
 		rep.Fail("anon.Encrypt/refused/"+st.name, "anon.Encrypt refused a message", desc)
@@ -1055,12 +1132,59 @@ func anonOracle(r *vh.Rng, st anonSetting, nk, mlen, nflips int, allTrunc bool) 
 			rep.Fail("anon.Decrypt/wrong-key-accepted/"+st.name, "decryption with a key at the wrong index returned a plaintext", map[string]interface{}{"base": desc, "got": vh.Hex(m3)})
 		}
 	}
+	// the anonymity-set slice is a caller object: replace one member IN PLACE and reuse the slice
+	if nk > 1 {
+		j := (mine + 1) % nk
+		oldY := set[j]
+		xn := s.Scalar().Pick(random.New())
+		set[j] = s.Point().Mul(xn, nil)
+		rep.Dist("reuse:anon:set-slice-member-replaced-in-place")
+		// the earlier ciphertext was not made for the set as it is NOW: not decryptable by all listed members
+		if m3, err, pk := run(ct, 0, mine, privs[mine], map[string]interface{}{"base": desc, "mine": mine, "set": "member replaced"}); !pk && err == nil {
+			rep.Fail("anon.Decrypt/other-set-accepted/"+st.name, "a ciphertext is accepted for an anonymity set in which another member's key was replaced", map[string]interface{}{"base": desc, "got": vh.Hex(m3), "replaced": j})
+		}
+		msg2 := msgOf(r, mlen)
+		mbuf := cp(msg2)
+		var ct2 []byte
+		var e2 error
+		if p, _ := vh.Try(func() { ct2, e2 = anon.Encrypt(s, mbuf, set) }); !p && e2 == nil {
+			if !bytes.Equal(mbuf, msg2) {
+				rep.Fail("anon.Encrypt/input-mutated/"+st.name, "anon.Encrypt changed the caller's message buffer", desc)
+			}
+			for k := range mbuf {
+				mbuf[k] = 0xA5 // the caller reuses its message buffer
+			}
+			d2 := map[string]interface{}{"base": desc, "history": "set[j] replaced in place, second Encrypt with the same slice, message buffer overwritten afterwards", "j": j, "msg2": vh.Hex(msg2), "ciphertext2": vh.Hex(ct2)}
+			if m3, err, pk := run(ct2, 0, j, xn, d2); !pk && (err != nil || !bytes.Equal(m3, msg2)) {
+				d2["got"] = fmt.Sprintf("%x / %v", m3, err)
+				rep.Fail("anon.reuse/new-member-cannot-decrypt/"+st.name, "after replacing a member in place the new member cannot decrypt the next ciphertext", d2)
+			}
+			if m3, err, pk := run(ct2, 0, j, privs[j], d2); !pk && err == nil {
+				d2["got"] = vh.Hex(m3)
+				rep.Fail("anon.reuse/replaced-member-decrypts/"+st.name, "the replaced member's key still decrypts a ciphertext made for the current set", d2)
+			}
+			if m3, err, pk := run(ct2, 0, mine, privs[mine], d2); !pk && (err != nil || !bytes.Equal(m3, msg2)) {
+				d2["got"] = fmt.Sprintf("%x / %v", m3, err)
+				rep.Fail("anon.reuse/member-cannot-decrypt/"+st.name, "an unchanged member cannot decrypt the ciphertext made for the current set", d2)
+			}
+		}
+		set[j] = oldY
+	}
 	// single-bit flips: region by region
 	type region struct {
 		name   string
 		lo, hi int
 	}
-	regs := []region{{"X", 0, pl}, {"own-slot", pl + sl*mine, pl + sl*mine + sl}, {"body", hdr, hdr + mlen}, {"tag", hdr + mlen, len(ct)}}
+	lo128 := hdr + mlen - 128
+	if lo128 < hdr {
+		lo128 = hdr
+	}
+	regs := []region{{"X", 0, pl}, {"own-slot", pl + sl*mine, pl + sl*mine + sl},
+		{"body-first", hdr, hdr + 1}, {"body-middle", hdr + mlen/3, hdr + 2*(mlen/3)}, {"body-last128", lo128, hdr + mlen},
+		{"body-last", hdr + mlen - 1, hdr + mlen}, {"tag-first", hdr + mlen, hdr + mlen + 1}, {"tag", hdr + mlen, len(ct)}}
+	if mlen == 0 {
+		regs = []region{{"X", 0, pl}, {"own-slot", pl + sl*mine, pl + sl*mine + sl}, {"tag", hdr, len(ct)}}
+	}
 	for o := 0; o < nk; o++ {
 		if o != mine {
 			regs = append(regs, region{"other-slot", pl + sl*o, pl + sl*o + sl})
@@ -1088,14 +1212,28 @@ func anonOracle(r *vh.Rng, st anonSetting, nk, mlen, nflips int, allTrunc bool) 
 					rep.Fail("anon.Decrypt/tamper-accepted/"+rg.name, "a ciphertext with one flipped bit was decrypted without error", d2)
 				}
 			}
-			rep.Dist("oracle:anon:bitflip:" + rg.name)
+			rep.Dist("region:anon-oracle:" + rg.name)
 		}
 	}
 	// truncations
-	for n := 0; n < len(ct); n++ {
-		if !allTrunc && n > hdr+18 && n < len(ct)-18 && r.Intn(16) != 0 {
-			continue
+	var cuts []int
+	if allTrunc {
+		for n := 0; n < len(ct); n++ {
+			cuts = append(cuts, n)
 		}
+	} else {
+		// boundaries of every region, block boundaries near the end, and a few random lengths
+		for _, n := range []int{0, 1, pl - 1, pl, pl + 1, hdr - 1, hdr, hdr + 1, hdr + 15, hdr + 16, hdr + 17, hdr + 64, hdr + 65,
+			len(ct) - 145, len(ct) - 144, len(ct) - 129, len(ct) - 128, len(ct) - 33, len(ct) - 32, len(ct) - 17, len(ct) - 16, len(ct) - 15, len(ct) - 2, len(ct) - 1} {
+			if n >= 0 && n < len(ct) {
+				cuts = append(cuts, n)
+			}
+		}
+		for k := 0; k < 6; k++ {
+			cuts = append(cuts, r.Intn(len(ct)))
+		}
+	}
+	for _, n := range cuts {
 		d2 := map[string]interface{}{"base": desc, "mine": mine, "truncated_to": n}
 		if m3, err, pk := run(ct[:n], 0, mine, privs[mine], d2); !pk && err == nil {
 			d2["got"] = vh.Hex(m3)
@@ -1105,13 +1243,297 @@ func anonOracle(r *vh.Rng, st anonSetting, nk, mlen, nflips int, allTrunc bool) 
 	}
 }
 
+// ------------------------------------------------------------------ object and buffer reuse
+
+// ibeReuseOracle: a history of encryptions in which the caller REUSES its buffers:
+// the next identity is written in place into the byte slice passed before (or the
+// buffer is modified and the new identity passed through another slice), the message
+// buffer is overwritten after every call.  Every ciphertext must open under the key
+// of the identity that was in the buffer AT THE TIME OF THE CALL and not under the
+// previous one.  kind: 0 CCAonG1, 1 CCAonG2, 2 CPAonG1.
+func ibeReuseOracle(r *vh.Rng, st ibeSetting, kind int) {
+	s := st.s
+	kg, ig := s.G1(), s.G2()
+	fn := []string{"CCAonG1", "CCAonG2", "CPAonG1"}[kind]
+	if kind == 1 {
+		kg, ig = s.G2(), s.G1()
+	}
+	if _, ok := ig.Point().(kyber.HashablePoint); !ok {
+		return
+	}
+	tagk := fn + "/" + st.name
+	sk := kg.Scalar().Pick(random.New())
+	base := kg.Point().Base()
+	master := kg.Point().Mul(sk, base)
+	keyOf := func(id []byte) kyber.Point {
+		return ig.Point().Mul(sk, ig.Point().(kyber.HashablePoint).Hash(cp(id)))
+	}
+	hs := s.Hash().Size()
+	n := 4 + r.Intn(12)
+	idbuf := make([]byte, n)
+	msgbuf := make([]byte, hs)
+	var prevID []byte
+	var hist []string
+	for round := 0; round < 5; round++ {
+		pattern := ""
+		passCopy := false
+		switch round {
+		case 0:
+			copy(idbuf, r.Bytes(n))
+			pattern = "fresh-buffer"
+		case 1:
+			idbuf[n-1]++ // a round number incremented in place
+			pattern = "id-incremented-in-place"
+		case 2:
+			copy(idbuf, r.Bytes(n))
+			passCopy = true
+			pattern = "id-buffer-modified-then-passed-as-copy"
+		case 3:
+			pattern = "same-id-again"
+		case 4:
+			copy(idbuf, r.Bytes(n))
+			pattern = "id-overwritten-in-place"
+		}
+		rep.Dist("reuse:ibe:" + pattern)
+		hist = append(hist, pattern)
+		curID := cp(idbuf)
+		mlen := 8 + r.Intn(hs-7)
+		copy(msgbuf, r.Bytes(mlen))
+		curMsg := cp(msgbuf[:mlen])
+		idArg := idbuf
+		if passCopy {
+			idArg = cp(idbuf)
+		}
+		desc := map[string]interface{}{"scheme": "ibe-" + fn, "suite": st.name, "history": strings.Join(hist, ","), "id": vh.Hex(curID), "msg": vh.Hex(curMsg)}
+		if prevID != nil {
+			desc["previous_id"] = vh.Hex(prevID)
+		}
+		var dec func(priv kyber.Point) ([]byte, error)
+		var err error
+		var pk bool
+		var pm string
+		if kind == 2 {
+			var c *ibe.CiphertextCPA
+			pk, pm = vh.Try(func() { c, err = ibe.EncryptCPAonG1(s, base, master, idArg, msgbuf[:mlen]) })
+			dec = func(priv kyber.Point) ([]byte, error) {
+				return ibe.DecryptCPAonG1(s, priv, &ibe.CiphertextCPA{RP: c.RP.Clone(), C: cp(c.C)})
+			}
+		} else {
+			var c *ibe.Ciphertext
+			enc, d := ibe.EncryptCCAonG1, ibe.DecryptCCAonG1
+			if kind == 1 {
+				enc, d = ibe.EncryptCCAonG2, ibe.DecryptCCAonG2
+			}
+			pk, pm = vh.Try(func() { c, err = enc(s, master, idArg, msgbuf[:mlen]) })
+			dec = func(priv kyber.Point) ([]byte, error) {
+				return d(s, priv, &ibe.Ciphertext{U: c.U.Clone(), V: cp(c.V), W: cp(c.W)})
+			}
+		}
+		rep.Count(fmt.Sprintf("ibe-reuse %s %x %x", tagk, curID, curMsg), true)
+		if pk || err != nil {
+			desc["err"] = fmt.Sprint(pm, err)
+			rep.Fail("ibe.reuse/encrypt-failed/"+tagk, "encryption failed in a buffer-reuse history", desc)
+			return
+		}
+		if !bytes.Equal(idbuf, curID) || !bytes.Equal(msgbuf[:mlen], curMsg) {
+			rep.Fail("ibe.Encrypt/input-mutated/"+tagk, "encryption changed the caller's identity or message buffer", desc)
+		}
+		// the caller reuses its message buffer right away
+		for k := range msgbuf {
+			msgbuf[k] = 0x5A
+		}
+		var m2 []byte
+		if p, pm := vh.Try(func() { m2, err = dec(keyOf(curID)) }); p || err != nil || !bytes.Equal(m2, curMsg) {
+			desc["got"] = fmt.Sprintf("%x / %v %s", m2, err, pm)
+			rep.Fail("ibe.reuse/current-identity-cannot-decrypt/"+tagk, "the ciphertext does not open under the key of the identity that was passed to the call (identity buffer reused by the caller)", desc)
+		}
+		if prevID != nil && !bytes.Equal(prevID, curID) {
+			var m3 []byte
+			if p, _ := vh.Try(func() { m3, err = dec(keyOf(prevID)) }); !p && ((kind != 2 && err == nil) || (kind == 2 && bytes.Equal(m3, curMsg))) {
+				desc["got"] = vh.Hex(m3)
+				rep.Fail("ibe.reuse/previous-identity-decrypts/"+tagk, "the ciphertext opens under the key of the PREVIOUS identity (stale identity point)", desc)
+			}
+		}
+		prevID = curID
+	}
+}
+
+// eciesReuseOracle: long-lived key objects re-keyed in place, message buffer reused.
+func eciesReuseOracle(r *vh.Rng, st eciesSetting) {
+	g := st.g
+	x := g.Scalar()
+	X := g.Point()
+	msgbuf := make([]byte, 300)
+	var prevCt []byte
+	for round := 0; round < 3; round++ {
+		x.Pick(random.New()) // re-key IN PLACE
+		X.Mul(x, nil)
+		Xb, _ := X.MarshalBinary()
+		xb, _ := x.MarshalBinary()
+		mlen := []int{64, 17, 300}[round]
+		copy(msgbuf, r.Bytes(mlen))
+		cur := cp(msgbuf[:mlen])
+		rep.Dist("reuse:ecies:key-objects-rekeyed-in-place")
+		desc := map[string]interface{}{"scheme": "ecies", "group": st.name, "round": round, "private": vh.Hex(xb), "msg": vh.Hex(cur)}
+		var ct []byte
+		var err error
+		if p, pm := vh.Try(func() { ct, err = ecies.Encrypt(g, X, msgbuf[:mlen], nil) }); p || err != nil {
+			desc["err"] = fmt.Sprint(pm, err)
+			rep.Fail("ecies.reuse/encrypt-failed/"+st.name, "Encrypt failed with reused key objects", desc)
+			return
+		}
+		rep.Count(fmt.Sprintf("ecies-reuse %s %x", st.name, cur), true)
+		Xa, _ := X.MarshalBinary()
+		xa, _ := x.MarshalBinary()
+		if !bytes.Equal(Xa, Xb) || !bytes.Equal(xa, xb) || !bytes.Equal(msgbuf[:mlen], cur) {
+			rep.Fail("ecies.Encrypt/input-mutated/"+st.name, "Encrypt changed the caller's key or message objects", desc)
+		}
+		for k := range msgbuf {
+			msgbuf[k] = 0xC3
+		}
+		desc["ciphertext"] = vh.Hex(ct)
+		if m2, err, pk := eciesDecrypt(st.name, g, x, ct, desc); !pk && (err != nil || !bytes.Equal(m2, cur)) {
+			desc["got"] = fmt.Sprintf("%x / %v", m2, err)
+			rep.Fail("ecies.reuse/roundtrip/"+st.name, "Decrypt(Encrypt(m)) != m with key objects re-keyed in place and the message buffer reused", desc)
+		}
+		xa2, _ := x.MarshalBinary()
+		if !bytes.Equal(xa2, xb) {
+			rep.Fail("ecies.Decrypt/key-mutated/"+st.name, "Decrypt changed the private key object", desc)
+		}
+		if prevCt != nil {
+			if m3, err, pk := eciesDecrypt(st.name, g, x, prevCt, desc); !pk && err == nil {
+				desc["got"] = vh.Hex(m3)
+				rep.Fail("ecies.reuse/old-ciphertext-opens-under-new-key/"+st.name, "a ciphertext made for the previous key opens under the re-keyed object", desc)
+			}
+		}
+		prevCt = ct
+	}
+}
+
+// ibeHistoryCases: model cases in which consecutive encryptions share ONE identity
+// buffer that is rewritten in place; the model is evaluated at the current bytes.
+func ibeHistoryCases(r *vh.Rng, s *dpSuite) {
+	for kind := 0; kind < 3; kind++ {
+		g2 := kind == 1
+		kg, ig := 1, 2
+		if g2 {
+			kg, ig = 2, 1
+		}
+		sk := r.BigBelow(s.q)
+		master := s.pointOf(kg, sk)
+		idbuf := r.Bytes(10)
+		for round := 0; round < 3; round++ {
+			pattern := "fresh"
+			arg := idbuf
+			switch round {
+			case 1:
+				idbuf[9]++
+				pattern = "id-incremented-in-place"
+			case 2:
+				copy(idbuf, r.Bytes(10))
+				arg = cp(idbuf)
+				pattern = "id-buffer-modified-then-passed-as-copy"
+			}
+			rep.Dist("reuse:ibe-case:" + pattern)
+			ID := cp(idbuf)
+			msg := msgOf(r, 8+r.Intn(25))
+			qid := dpHashLog(s.q, byte(ig), ID)
+			private := s.pointOf(ig, new(big.Int).Mul(sk, qid))
+			s.reset()
+			id := newID()
+			d := map[string]interface{}{"type": "ibe-history-encrypt", "kind": kind, "pattern": pattern, "secret": sk.String(), "id": vh.Hex(ID), "msg": vh.Hex(msg)}
+			if kind == 2 {
+				var c *ibe.CiphertextCPA
+				var err error
+				p, _ := vh.Try(func() { c, err = ibe.EncryptCPAonG1(s, s.pointOf(1, big.NewInt(1)), master, arg, cp(msg)) })
+				cls := ibeCls(err)
+				if p {
+					cls = -1
+				}
+				RP, C := big.NewInt(0), []byte{}
+				if cls == 0 {
+					RP, C = dlogOf(c.RP), c.C
+				}
+				cf.Items = append(cf.Items, fmt.Sprintf("CCpaEnc %d %s %s %s %s %s %s %s %s %s %s", id, hashTbl(s), idTbl(s, false, ID), vh.CoqZ(big.NewInt(1)), vh.CoqZ(sk),
+					vh.CoqBytes(ID), vh.CoqBytes(msg), vh.CoqZ(RP), vh.CoqInt(cls), vh.CoqZ(RP), vh.CoqBytes(C)))
+				d["class"] = cls
+				rep.Index(id, d)
+				rep.Count(fmt.Sprintf("cpa-hist %x %x", ID, msg), true)
+				rep.Dist("case:ibe-history")
+				if cls == 0 {
+					s.reset()
+					var m []byte
+					p, _ := vh.Try(func() { m, err = ibe.DecryptCPAonG1(s, private, &ibe.CiphertextCPA{RP: c.RP.Clone(), C: cp(c.C)}) })
+					cls2 := ibeCls(err)
+					if p {
+						cls2 = -1
+					}
+					id2 := newID()
+					cf.Items = append(cf.Items, fmt.Sprintf("CCpaDec %d %s %s %s %s %s %s", id2, hashTbl(s), vh.CoqZ(dlogOf(private)), vh.CoqZ(RP), vh.CoqBytes(C), vh.CoqInt(cls2), vh.CoqBytes(m)))
+					rep.Index(id2, map[string]interface{}{"type": "ibe-history-decrypt", "kind": kind, "pattern": pattern, "class": cls2, "out": vh.Hex(m)})
+					rep.Count(fmt.Sprintf("cpa-hist-dec %x", C), true)
+					if cls2 != 0 || !bytes.Equal(m, msg) {
+						rep.Fail("ibe.reuse/current-identity-cannot-decrypt/CPAonG1/dlogpair", "the ciphertext does not open under the key of the identity passed to the call (identity buffer reused)", d)
+					}
+				}
+				continue
+			}
+			enc, dec := ibe.EncryptCCAonG1, ibe.DecryptCCAonG1
+			if g2 {
+				enc, dec = ibe.EncryptCCAonG2, ibe.DecryptCCAonG2
+			}
+			var c *ibe.Ciphertext
+			var err error
+			p, _ := vh.Try(func() { c, err = enc(s, master, arg, cp(msg)) })
+			cls := ibeCls(err)
+			if p {
+				cls = -1
+			}
+			sigma, U, V, W := []byte{}, big.NewInt(0), []byte{}, []byte{}
+			if cls == 0 {
+				U, V, W = dlogOf(c.U), c.V, c.W
+				for _, h := range s.hashes {
+					if bytes.HasPrefix(h.in, []byte("IBE-H2")) {
+						pad := make([]byte, len(V))
+						copy(pad, h.out)
+						sigma = xorBytes(V, pad)
+					}
+				}
+			}
+			cf.Items = append(cf.Items, fmt.Sprintf("CIbeEnc %d %s %s %s %s %s %s %s %s %s %s %s", id, hashTbl(s), idTbl(s, g2, ID), vh.CoqBool(g2),
+				vh.CoqZ(sk), vh.CoqBytes(ID), vh.CoqBytes(msg), vh.CoqBytes(sigma), vh.CoqInt(cls), vh.CoqZ(U), vh.CoqBytes(V), vh.CoqBytes(W)))
+			d["class"] = cls
+			rep.Index(id, d)
+			rep.Count(fmt.Sprintf("ibe-hist %v %x %x", g2, ID, msg), true)
+			rep.Dist("case:ibe-history")
+			if cls == 0 {
+				s.reset()
+				var m []byte
+				p, _ := vh.Try(func() { m, err = dec(s, private, &ibe.Ciphertext{U: c.U.Clone(), V: cp(V), W: cp(W)}) })
+				cls2 := ibeCls(err)
+				if p {
+					cls2 = -1
+				}
+				id2 := newID()
+				cf.Items = append(cf.Items, fmt.Sprintf("CIbeDec %d %s %s %s %s %s %s %s %s", id2, hashTbl(s), vh.CoqBool(g2),
+					vh.CoqZ(dlogOf(private)), vh.CoqZ(U), vh.CoqBytes(V), vh.CoqBytes(W), vh.CoqInt(cls2), vh.CoqBytes(m)))
+				rep.Index(id2, map[string]interface{}{"type": "ibe-history-decrypt", "kind": kind, "pattern": pattern, "class": cls2, "out": vh.Hex(m)})
+				rep.Count(fmt.Sprintf("ibe-hist-dec %x %x", V, W), true)
+				if cls2 != 0 || !bytes.Equal(m, msg) {
+					rep.Fail("ibe.reuse/current-identity-cannot-decrypt/"+[]string{"CCAonG1", "CCAonG2"}[kind]+"/dlogpair", "the ciphertext does not open under the key of the identity passed to the call (identity buffer reused)", d)
+				}
+			}
+		}
+	}
+}
+
 // ------------------------------------------------------------------ main
 
 func main() {
 	opts = vh.ParseFlags()
 	r := vh.NewRng(opts.Seed)
 	rep = vh.NewReport("C16", opts.Seed, opts.Tier)
-	rep.Rule = "model cases: ECIES / IBE-CCA (both group assignments) / IBE-CPA / anonymity-set Encrypt and Decrypt over discrete-log groups, message lengths edge-biased 0..4096 (IBE 0..hash size+2, 64, 1000), set sizes 1..6 x every index, honest / wrong key / bit flip / truncation / extension variants; oracles over Ed25519, P-256, BN256 G1, BLS12-381 (kilic, circl, gnark): round trip, refusal, wrong key, every region bit flips (sampled in quick), truncations, 16-byte clear blocks, input buffer unchanged, no panic"
+	rep.Rule = "model cases: ECIES / IBE-CCA (both group assignments) / IBE-CPA / anonymity-set Encrypt and Decrypt over discrete-log groups, message lengths boundary-biased 0..4096 (around 16/32/64/128/136/256.., families 128k, 136k, 64+128k; IBE 0..hash size+2, 64, 1000), set sizes 1..6 x every index, honest / wrong key / one bit flipped in EVERY region (point, own and other slot, first / middle / last-128 / last body byte, tag) / truncation at region boundaries / extension variants, histories with caller buffers and key objects reused in place (identity, message, set slice, key objects); oracles over Ed25519, P-256, BN256 G1, BLS12-381 (kilic, circl, gnark): round trip, refusal, wrong key, every region bit flips (sampled in quick), truncations, 16-byte clear blocks, input buffer unchanged, no panic"
 	cf = &vh.CaseFile{Header: "From Kyber Require Import Enc.EncRun.", Type: "case", Runner: "mismatches"}
 
 	scale := 1
@@ -1124,6 +1546,7 @@ func main() {
 	if !opts.Search {
 		eciesCases(r.Fork(), 12*scale)
 		ibeCases(r.Fork(), 16*scale)
+		ibeHistoryCases(r.Fork(), newDpSuite())
 		anonCases(r.Fork(), 18*scale)
 	}
 
@@ -1143,6 +1566,13 @@ func main() {
 		for k := 0; k < 3*scale; k++ {
 			eciesOracle(ro.Fork(), st, ro.Intn(200), 16, false)
 		}
+		if st.name == "ed25519" || st.name == "dlog61" || opts.Thorough || opts.Search {
+			bl := boundaryLens()
+			for k := 0; k < 6*scale; k++ {
+				eciesOracle(ro.Fork(), st, bl[ro.Intn(len(bl))], 12, false)
+			}
+		}
+		eciesReuseOracle(ro.Fork(), st)
 	}
 	for _, st := range ibeSuites() {
 		hs := st.s.Hash().Size()
@@ -1164,23 +1594,46 @@ func main() {
 			ibeOracleCCA(ro.Fork(), st, k%2 == 0, ro.Intn(hs+1), 4)
 			ibeOracleCPA(ro.Fork(), st, ro.Intn(3*hs))
 		}
+		for rounds := 0; rounds < scale; rounds++ {
+			for kind := 0; kind < 3; kind++ {
+				ibeReuseOracle(ro.Fork(), st, kind)
+			}
+		}
 	}
 	anons := []anonSetting{{"ed25519", edwards25519.NewBlakeSHA256Ed25519()}, {"dlog61", vh.NewDlogGroup(vh.Q61, nil)}}
 	for _, st := range anons {
+		full := opts.Thorough || opts.Search
+		// short messages: every set size; every bit / every truncation in the thorough tier
 		for nk := 1; nk <= 6; nk++ {
-			for k, l := range edgeLen {
-				if !opts.Thorough && !opts.Search && (k+nk)%3 != 0 && l > 17 {
+			for k, l := range []int{0, 1, 15, 16, 17, 31, 32, 33} {
+				if !full && (k+nk)%3 != 0 && l > 17 {
 					continue
 				}
 				nfl := 4
-				if opts.Thorough || opts.Search {
-					nfl = 24
-					if l <= 33 {
-						nfl = 1 << 30
-					}
+				if full {
+					nfl = 1 << 30
 				}
-				anonOracle(ro.Fork(), st, nk, l, nfl, opts.Thorough || l <= 33)
+				anonOracle(ro.Fork(), st, nk, l, nfl, true)
 			}
+		}
+		// boundary sweep: every length of boundaryLens() over the transparent group (cheap),
+		// a rotating third of them over Ed25519 in the quick tier; one bit (quick: 2) in every
+		// region of every ciphertext, truncation at every region boundary
+		for k, l := range boundaryLens() {
+			if l <= 33 {
+				continue
+			}
+			if st.name == "ed25519" && !full && (k+int(opts.Seed))%3 != 0 {
+				continue
+			}
+			nfl := 2
+			if full {
+				nfl = 12
+			}
+			anonOracle(ro.Fork(), st, 1+(k+int(opts.Seed))%6, l, nfl, false)
+		}
+		for k := 0; k < 4*scale; k++ {
+			anonOracle(ro.Fork(), st, 1+ro.Intn(6), ro.Intn(4097), 2, false)
 		}
 	}
 
